@@ -134,6 +134,8 @@ def execLine (c : SecCtx) (e : Env) (l : Line) (s : RefState) : Option RefState 
   | "dec", [.reg k] => if std then some (setReg k ((s.regs k + m - 1) % m)) else none
   | "clr", [.reg k] => if std then some (setReg k 0) else none
   | "add", [.reg d, .reg r] => if std then some (setReg d ((s.regs d + s.regs r) % m)) else none
+  | "mult", [.reg d, .reg r] => if std then some (setReg d ((s.regs d * s.regs r) % m)) else none
+  | "div", [.reg d, .reg r] => if std && s.regs r ≠ 0 then some (setReg d (s.regs d / s.regs r)) else none
   | "j", [.sym t] => (labelPos c.lines t).map fun p => { s with pos := p }
   | "jmp", [.sym t] => (labelPos c.lines t).map fun p => { s with pos := p }
   | "jz", [.reg k, .sym t] =>
